@@ -37,28 +37,46 @@ def shards(tier):
 
 
 def subterms(t, path=()):
-    """(path, subterm) of all type positions (arguments, inside projections)."""
+    """(path, subterm) of all type positions (arguments, inside projections - also nested ones; a projection that is
+    itself the bound of a projection is a position, a projection argument is not).  Path elements: argument index, or
+    'p' = into the bound of a projection."""
     out = [(path, t)]
     if t[0] == 'i':
         for i, a in enumerate(t[2]):
-            if a[0] == 'p':
-                out += subterms(a[2], path + (i, 'p'))
-            elif a[0] != 'star':
-                out += subterms(a, path + (i,))
+            if a[0] == 'star':
+                continue
+            sub = subterms(a, path + (i,))
+            out += sub[1:] if a[0] == 'p' else sub
+    elif t[0] == 'p':
+        out += subterms(t[2], path + ('p',))
     return out
 
 
 def replace_at(t, path, new):
     if not path:
         return new
-    i = path[0]
+    if path[0] == 'p':
+        return ('p', t[1], replace_at(t[2], path[1:], new))
     args = list(t[2])
-    if len(path) > 1 and path[1] == 'p':
-        a = args[i]
-        args[i] = ('p', a[1], replace_at(a[2], path[2:], new))
-    else:
-        args[i] = replace_at(args[i], path[1:], new)
+    args[path[0]] = replace_at(args[path[0]], path[1:], new)
     return ('i', t[1], tuple(args))
+
+
+def subst_syn(t, th):
+    """Syntactic substitution (what "applying the assignment to the pattern" means): a projection substituted under a
+    projection stays nested, as in the implementation's own substitute_type; rm.subst would compose the variances."""
+    if t is None:
+        return None
+    k = t[0]
+    if k == 'v':
+        if t[1] in th:
+            return th[t[1]]
+        return ('v', t[1], subst_syn(t[2], th)) if t[2] is not None else t
+    if k == 'i':
+        return ('i', t[1], tuple(subst_syn(a, th) for a in t[2]))
+    if k == 'p':
+        return ('p', t[1], subst_syn(t[2], th))
+    return t
 
 
 @st.composite
@@ -75,8 +93,23 @@ def cases(draw, lang):
         tt = draw(tg.types(u, R, depth=2, proj=False))
         if tt is None or rm.is_proj(tt):
             tt = u.builtins[1][0]
-        bk = draw(st.sampled_from(['none', 'super', 'unrelated', 'self']))
+        bk = draw(st.sampled_from(['none', 'super', 'unrelated', 'self', 'var-target', 'var-target']))
         bound = None
+        if bk == 'var-target':
+            # the target is itself a (bounded) type variable: its bound must satisfy the pattern variable's bound
+            ground = [x for x in u.ground_base()]
+            b1 = draw(st.sampled_from([None] + ground))
+            rel = draw(st.sampled_from(['none', 'super-of-target-bound', 'sub-of-target-bound', 'any']))
+            b2 = None
+            if rel == 'super-of-target-bound' and b1 is not None:
+                ups = [x for x in R.all_supers(b1) if not rm.has_kind(x, ('cap',))]
+                b2 = draw(st.sampled_from(ups)) if ups else b1
+            elif rel == 'sub-of-target-bound' and b1 is not None:
+                downs = [x for x in ground if x != b1 and R.sub(x, b1)]
+                b2 = draw(st.sampled_from(downs)) if downs else None
+            elif rel == 'any':
+                b2 = draw(st.sampled_from(ground))
+            return u, ('v', 'X', b1), ('v', 'T', b2), mode, 'lone-variable-var-target-' + rel
         if bk == 'super':
             ups = [x for x in R.all_supers(tt) if not rm.has_kind(x, ('cap',))] if tt[0] in ('i', 'c', 'b') else []
             bound = draw(st.sampled_from(ups)) if ups else None
@@ -86,6 +119,13 @@ def cases(draw, lang):
         elif bk == 'self':
             bound = tt
         return u, tt, ('v', 'T', bound), mode, 'lone-variable-' + bk
+    if mode == 'same' and draw(st.integers(0, 5)) == 0:
+        # a projection whose bound is itself a projection (what substituting {U: in X} into A<out U> produces)
+        projs = [pa for pa, x in subterms(t) if pa and pa[-1] == 'p' and not rm.is_proj(x)]
+        if projs:
+            pa = draw(st.sampled_from(projs))
+            inner = [x for q, x in subterms(t) if q == pa][0]
+            t = replace_at(t, pa, ('p', draw(st.sampled_from(['out', 'in'])), inner))
     base = t
     if mode == 'super':
         ups = [x for x in R.all_supers(t) if x[0] == 'i' and not rm.has_kind(x, ('cap',))]
@@ -96,9 +136,22 @@ def cases(draw, lang):
     # generalise
     p = base
     sigma = {}
+    declared = {}
     nvars = draw(st.integers(1, 3))
     kind = draw(st.sampled_from(['unifiable', 'unifiable', 'unifiable', 'leaf-changed', 'var-reused', 'bound-violated',
-                                 'constructor-swapped', 'unrelated']))
+                                 'constructor-swapped', 'unrelated', 'nested-super']))
+    if kind == 'nested-super':
+        # a *nested* component of the pattern is a proper supertype of the target's component: only the outermost type
+        # may be replaced by a supertype (supertype mode), so under an invariant parameter nothing unifies
+        subs = []
+        for pa, x in subterms(p):
+            if pa and x[0] in ('i', 'c'):
+                ups = [y for y in R.all_supers(x) if y != x and y[0] == 'i' and not rm.has_kind(y, ('cap',))]
+                if ups:
+                    subs.append((pa, ups))
+        if subs:
+            pa, ups = draw(st.sampled_from(subs))
+            p = replace_at(p, pa, draw(st.sampled_from(ups)))
     for j in range(nvars):
         subs = [(pa, s) for pa, s in subterms(p) if pa and s[0] != 'v']
         if not subs:
@@ -117,13 +170,19 @@ def cases(draw, lang):
             # bound is a parameterized type mentioning a further variable: A<T> with T := s.arg0
             a0 = s[2][0]
             if not rm.is_proj(a0):
-                bound = ('i', s[1], (('v', 'B' + name, None),) + tuple(s[2][1:]))
-        if kind == 'bound-violated' and j == 0:
+                inner = ('v', 'B' + name, None)
+                if declared and draw(st.booleans()):
+                    # ... or an *earlier pattern variable* (class Foo<X, Y: Bar<X>>): its binding must agree with what
+                    # the bound demands, else nothing unifies
+                    inner = declared[draw(st.sampled_from(sorted(declared)))]
+                bound = ('i', s[1], (inner,) + tuple(s[2][1:]))
+        if kind == 'bound-violated' and j == 0 and not rm.is_proj(s):
             others = [x for x in u.ground_base() if not R.sub(s, x)]
             if others:
                 bound = draw(st.sampled_from(others))
         v = ('v', name, bound)
         sigma[name] = s
+        declared[name] = v
         p = replace_at(p, pa, v)
         # repeated variable: other occurrences of the same component
         if draw(st.booleans()):
@@ -200,7 +259,7 @@ def judge(u, t, p, mode, kind, col, record=True):
         return viols
     if not ok_keys:
         viols.append(('C10/variable-bound-twice', {}))
-    sp = rm.subst(p, mm)
+    sp = subst_syn(p, mm)
     cands = [t] if mode == 'same' else [t] + [x for x in R.all_supers(t) if not rm.has_kind(x, ('cap',))]
     why = None
     for c in cands:
